@@ -173,11 +173,21 @@ impl Ldap {
         next_ldap_id
     }
 
+    /// Drop the per-operation modifiers when an operation fails before being submitted,
+    /// so that they can't leak into the next one.
+    fn discard_modifiers(&mut self) {
+        self.controls = None;
+        self.timeout = None;
+        self.search_opts = None;
+    }
+
     pub(crate) async fn op_call(
         &mut self,
         op: LdapOp,
         req: Tag,
     ) -> Result<(LdapResult, Exop, SaslCreds)> {
+        // Search options only apply to Search, which consumes them before getting here.
+        self.search_opts = None;
         let id = self.next_msgid();
         self.last_id = id;
         let (tx, rx) = oneshot::channel();
@@ -595,6 +605,7 @@ impl Ldap {
             ],
         });
         if any_empty {
+            self.discard_modifiers();
             return Err(LdapError::AddNoValues);
         }
         Ok(self.op_call(LdapOp::Single, req).await?.0)
@@ -716,6 +727,7 @@ impl Ldap {
             ],
         });
         if any_add_empty {
+            self.discard_modifiers();
             return Err(LdapError::AddNoValues);
         }
         Ok(self.op_call(LdapOp::Single, req).await?.0)
